@@ -18,6 +18,14 @@ package keeper
 // sum of the weighted shares  floor(rem*rate_j/R)  of the first k payments
 //@ spec sumShare(ps: []types.Payment, rem: int, R: int, k: int): int = ite(k <= 0, 0, sumShare(ps, rem, R, k-1) + (rem * ps[k-1].Rate.Amount) / R)
 
+// total credited by n full blocks to the first k payments
+//@ spec totalFull(ps: []types.Payment, n: int, k: int): int = ite(k <= 0, 0, totalFull(ps, n, k-1) + ps[k-1].Rate.Amount * n)
+//@ lemma totalFullIsProduct(ps: []types.Payment, n: int, k: int)
+//@   induction k
+//@   requires 0 <= k
+//@   ensures totalFull(ps, n, k) == n * sumRate(ps, k)
+//@   trigger totalFull(ps, n, k)
+
 // sumRate depends only on the Rate cells (two-heap frame lemma; old(.) denotes the other heap)
 //@ lemma sumRateFrame(ps: []types.Payment, k: int)
 //@   induction k
@@ -28,7 +36,10 @@ package keeper
 // ---- C02: settlement arithmetic -------------------------------------------
 
 //@ func accountSettleFullblocks
-//@   uses sumRateFrame
+//@   uses sumRateFrame, totalFullIsProduct
+//@   ensures [credited] result0.Transferred.Amount - account.Transferred.Amount
+//@              == old(totalFull(payments, min(account.Balance.Amount / blockRate.Amount, heightDelta), len(payments)))
+//@   ensures [debited] result0.Transferred.Amount - account.Transferred.Amount == account.Balance.Amount - result0.Balance.Amount
 //@   ensures [sumsame] sumRate(payments, len(payments)) == old(sumRate(payments, len(payments)))
 //@   ensures [sharefull] !result2 ==> (forall i: int :: 0 <= i && i < len(payments) ==>
 //@              payments[i] == upd(old(payments[i]), Balance.Amount, old(payments[i].Balance.Amount) + old(payments[i].Rate.Amount) * heightDelta))
@@ -102,7 +113,7 @@ package keeper
 //@                 old(payments[j].Balance.Amount) + baseAmt + ite(j < numOverflow, 1, 0))
 //@   loop 1 invariant forall j: int :: iter <= j && j < len(payments) ==> payments[j] == old(payments[j])
 
-//@ property C02 := (*keeper).doAccountSettle#*, lemma:sumRateFrame, accountSettleFullblocks#*, accountSettleDistributeWeighted#*, accountSettleDistributeEvenly#*
+//@ property C02 := (*keeper).doAccountSettle#*, lemma:totalFullIsProduct, lemma:sumRateFrame, accountSettleFullblocks#*, accountSettleDistributeWeighted#*, accountSettleDistributeEvenly#*
 
 // ---- store layout ----------------------------------------------------------
 
@@ -176,6 +187,9 @@ package keeper
 
 // ---- withdrawals: pay out the recorded balance, zero it, persist the record ----
 //@ func (*keeper).paymentWithdraw
+//@   ensures [conserve] old(KVhas)[k.skey][pKey(obj.AccountID, obj.PaymentID)]
+//@                && decode(types.Payment, old(KVval)[k.skey][pKey(obj.AccountID, obj.PaymentID)]).Balance == old(obj.Balance) ==>
+//@                (forall d: str :: Mod["escrow"][d] - G[k.skey][d] == old(Mod)["escrow"][d] - old(G)[k.skey][d])
 //@   modifies *obj, ghost KVhas, ghost KVval, ghost G, ghost Mod, ghost Bank
 //@   ensures [fail] result != nil ==> *obj == old(*obj) && KVhas == old(KVhas) && KVval == old(KVval) && G == old(G) && Mod == old(Mod) && Bank == old(Bank)
 //@   ensures [obj] result == nil ==> *obj == upd(upd(old(*obj), Balance.Amount, 0), Withdrawn.Amount, old(obj.Withdrawn.Amount) + old(obj.Balance.Amount))
@@ -188,6 +202,9 @@ package keeper
 //@   ensures [gframe] forall sk: iface :: sk != k.skey ==> G[sk] == old(G)[sk]
 
 //@ func (*keeper).accountWithdraw
+//@   ensures [conserve] old(KVhas)[k.skey][aKey(obj.ID)]
+//@                && decode(types.Account, old(KVval)[k.skey][aKey(obj.ID)]).Balance == old(obj.Balance) ==>
+//@                (forall d: str :: Mod["escrow"][d] - G[k.skey][d] == old(Mod)["escrow"][d] - old(G)[k.skey][d])
 //@   modifies *obj, ghost KVhas, ghost KVval, ghost G, ghost Mod, ghost Bank
 //@   ensures [fail] result != nil ==> *obj == old(*obj) && KVhas == old(KVhas) && KVval == old(KVval) && G == old(G) && Mod == old(Mod) && Bank == old(Bank)
 //@   ensures [obj] result == nil ==> *obj == upd(old(*obj), Balance.Amount, 0)
@@ -503,3 +520,11 @@ package keeper
 //@   ensures [stable] stable(old(KVhas)[k.skey], old(KVval)[k.skey], KVhas[k.skey], KVval[k.skey])
 
 //@ property C03 := (*keeper).PaymentWithdraw#*, (*keeper).PaymentCreate#*, (*keeper).AccountClose#*, lemma:payIds, lemma:recsOKTrans, lemma:recsOKRefl, lemma:wfAcctStep, (*keeper).AccountSettle#*, (*keeper).PaymentClose#*, lemma:sumRateFrame, lemma:stableTrans, lemma:stableRefl, (*keeper).doAccountSettle#*, (*keeper).AccountCreate#*, (*keeper).AccountDeposit#*, (*keeper).paymentWithdraw#*, (*keeper).accountWithdraw#*, lemma:openCountMono, lemma:openCountStrict, (*keeper).accountPayments#*, (*keeper).accountOpenPayments#*, (*keeper).GetAccount#*, (*keeper).GetPayment#*, (*keeper).saveAccount#*, (*keeper).savePayment#*
+
+// C01: funds enter only as deposits debited from the depositor (AccountCreate / AccountDeposit), leave only as
+// payouts of a recorded balance to the record's owner (the two withdraw functions), and every such step keeps
+// module balance minus recorded total (ghost G, maintained at every store write) unchanged; settlement moves
+// value between records only: each helper debits the account by exactly what it credits to payees.
+//@ property C01 := (*keeper).AccountCreate#*, (*keeper).AccountDeposit#*, (*keeper).paymentWithdraw#*, (*keeper).accountWithdraw#*,
+//@                 (*keeper).saveAccount#*, (*keeper).savePayment#*, lemma:totalFullIsProduct, lemma:sumRateFrame,
+//@                 accountSettleFullblocks#*, accountSettleDistributeWeighted#*, accountSettleDistributeEvenly#*
